@@ -458,7 +458,15 @@ pub fn build(kind: Kind, raw: i128, choices: &[u32], neg: u32) -> Built {
     // ---- truncation (omitted trailing time fields); only for positive cases ---------------
     let tolerant = |t: &Tok| matches!(t, Tok::Blank(_) | Tok::Punct(b'-') | Tok::Punct(b':') | Tok::Punct(b'.') | Tok::HH24 | Tok::HH12 | Tok::MI | Tok::SS | Tok::FF(_) | Tok::Mer { .. });
     let mut cut: Option<usize> = None; // tokens at index >= cut are not spelled
-    if perturb == Perturb::None && has_time && ch.flag(1, 4) {
+    // a duplicated time-field code is an error even when the text ends before it is reached:
+    // such a negative case may be truncated like a positive one (the duplicate gets no text)
+    let dup_is_tolerant = perturb == Perturb::Duplicate && dup_text.is_some() && ctoks.last().map(|t| tolerant(&t.0)).unwrap_or(false);
+    let truncate_dup = dup_is_tolerant && ch.flag(1, 2);
+    if truncate_dup {
+        dup_text = None;
+        tags.push("duplicate-code-with-text-ending-early");
+    }
+    if (perturb == Perturb::None || truncate_dup) && has_time && (truncate_dup || ch.flag(1, 4)) {
         // smallest index from which everything is tolerant
         let mut first = ctoks.len();
         while first > 0 && tolerant(&ctoks[first - 1].0) {
@@ -479,6 +487,9 @@ pub fn build(kind: Kind, raw: i128, choices: &[u32], neg: u32) -> Built {
                     cut = Some(c);
                     tags.push("omitted-trailing-fields");
                 }
+            } else if truncate_dup {
+                // everything is spelled except the duplicate (which has no text)
+                cut = Some(ctoks.len() - 1);
             }
         }
     }
